@@ -143,6 +143,21 @@ func runOverlap(cc *caseCfg, b run.Batch, r *ev.Result) (abort bool) {
 		return true
 	}
 
+	// ---- nothing of the client may be locked while a round merely waits for its server
+	if free, leaked, detail := probeLock(x.c); leaked {
+		r.Violationf(lockKey(detail), x.replay(map[string]interface{}{"label": "overlap: round 1 held by a silent server"}), "overlap: a sync round is waiting for a server that accepted the connection and says nothing, and the client mutex cannot be taken: %s", detail)
+		x.closed = true
+		doRelease()
+		go x.c.Close()
+		return true
+	} else if !free {
+		x.closed = true
+		x.inconc("overlap: lock probe undecided while round 1 is held: %s", detail)
+		return true
+	}
+	r.Count("lock_probes_free", 1)
+	r.Count("lock_probes_free_while_a_round_waits_for_a_silent_server", 1)
+
 	// ---- round 2 completes and adopts the ban of O while round 1 is held
 	x.trace("round 2 runs to completion while round 1 is held")
 	ok2, done := syncOnce(x.c, x.latest)
